@@ -158,6 +158,11 @@ def run(ctx):
         v = ctx.view("degree.degree_sequence")
 
         def is_get_nodes(it):
+            if isinstance(it, ast.Name):
+                # `nodes = hg.get_nodes()` on every branch that reaches the loop
+                ds_ = [d.value for d in walk_no_nested(v.fi.node) if isinstance(d, ast.Assign) and any(isinstance(t, ast.Name) and t.id == it.id for t in d.targets)]
+                if len(ds_) > 1:
+                    return all(is_get_nodes(d) for d in ds_)
             it = v.inline(it)
             return isinstance(it, ast.Call) and isinstance(it.func, ast.Attribute) and it.func.attr == "get_nodes" and not it.args and not it.keywords
 
@@ -301,6 +306,24 @@ def run(ctx):
     # ---- CC-SWEEP: a search expands EVERY node it has discovered.  A `break` that leaves the loop over the current frontier / queue
     #      on a condition about the node at hand (it has no new neighbours) abandons the rest of the frontier: whatever is reachable
     #      only through those nodes is missing from the component
+    # ---- CC-LABELPROP: components computed by ONE pass of "give the members of each hyperedge the smallest label among them"
+    #      (`labels[members] = labels[members].min()`) relabel the members only: nodes that were merged into a member's group earlier keep
+    #      their stale label.  Without a union-find root look-up or iteration to a fixed point the classes are finer than reachability
+    with res.guard("CC-LABELPROP"):
+        res.rules["CC-LABELPROP"] = "components are not computed by a single pass of per-hyperedge minimum-label assignment over the members only (no transitive merging)"
+        n_lp = 0
+        for d_ in ("cc.connected_components", "cc.node_connected_component", "cc.is_connected"):
+            if not ctx.has(d_):
+                continue
+            lv = ctx.view(d_)
+            for a_ in walk_no_nested(lv.fi.node):
+                if isinstance(a_, ast.Assign) and len(a_.targets) == 1 and isinstance(a_.targets[0], ast.Subscript) and isinstance(a_.value, ast.Call) and isinstance(a_.value.func, ast.Attribute) and a_.value.func.attr in ("min", "max") and isinstance(a_.value.func.value, ast.Subscript) and norm(a_.value.func.value) == norm(a_.targets[0]):
+                    loops = lv.enclosing_all(a_, (ast.For, ast.While))
+                    fixpoint = any(isinstance(l_, ast.While) for l_ in loops) or len(loops) >= 2
+                    n_lp += 1
+                    res.add("CC-LABELPROP", lv.fi.short, norm(a_)[:80], "transitive", "unknown" if fixpoint else "violation", "the label pass is repeated; whether it runs to a fixed point was not decided" if fixpoint else f"`{norm(a_)[:60]}` runs once per hyperedge and relabels only that hyperedge's members: a node that shares an EARLIER label with a member, but is not in this hyperedge, keeps the old label, so a component that is joined late comes out split", loc(lv.fi, a_))
+        if n_lp == 0:
+            res.ok("CC-LABELPROP", "cc", "no single-pass label propagation", "scan", "hypergraphx/utils/cc.py")
     with res.guard("CC-SWEEP"):
         res.rules["CC-SWEEP"] = "a search never leaves the loop over the discovered nodes because of a property of the node at hand (`break` where `continue` is meant); only a depth bound ends it early"
         for d in ("visits._bfs", "visits._dfs"):
